@@ -1,5 +1,6 @@
 import NgVerif.Model.Slices
 import NgVerif.Proofs.Tiling
+import NgVerif.Proofs.Slices
 /-
   C15 — Slice stacks are assembled with the requested anatomical orientation.
 -/
@@ -43,5 +44,43 @@ theorem slice_group_positions (n cs g k : Nat) (reversed : Bool)
   cases reversed <;> simp <;> omega
 
 example : groupFiles 5 2 2 true = [0] ∧ groupFiles 5 2 0 true = [4, 3] := by decide
+
+/-- THE WHOLE STACK, every accepted orientation code. `stackChunks` is the chunk loop of
+    `slices_to_raw_chunks` at index level (slice groups × row chunks × column chunks; flips by negative
+    steps, `np.moveaxis`, `permute`/`invert_permutation` of slicings and coordinates; its output is compared
+    with the recorded `write_chunk` calls of the real code on every run). For every code the tables accept
+    (its axes are then one of the six permutations), every combination of reversed axes, every volume size
+    and every chunk size: each written chunk has exactly one stored pixel per position of its box, every
+    position lies inside the volume, the stored pixel lies inside the input stack, and it is the pixel the
+    orientation code designates for that position (`outCoord pixel = position`: axes permuted and reversed
+    exactly as the code says). -/
+theorem every_chunk_holds_designated_pixels (code : List Char) (p : List Nat) (hp : perm code = some p)
+    (hv : validCode code = true) (i0 i1 i2 : Int) (s0 s1 s2 c0 c1 c2 : Nat) (ch : SChunk)
+    (hch : ch ∈ stackChunks p [i0, i1, i2] [s0, s1, s2] [c0, c1, c2]) :
+    ch.pix.length = (boxVoxels ch.box).length ∧
+    ∀ k, k < (boxVoxels ch.box).length →
+      let o := (boxVoxels ch.box).getD k []
+      let px := ch.pix.getD k []
+      let nIn := permute [s0, s1, s2] p 0
+      outCoord p [i0, i1, i2] nIn px = o ∧
+      (o.getD 0 0 < s0 ∧ o.getD 1 0 < s1 ∧ o.getD 2 0 < s2) ∧
+      (px.getD 0 0 < nIn.getD 0 0 ∧ px.getD 1 0 < nIn.getD 1 0 ∧ px.getD 2 0 < nIn.getD 2 0) := by
+  obtain ⟨h3, h0, h1, h2⟩ := validCode_perm code p hp hv
+  exact stackChunks_good p (perm3_mem_six p h3 h0 h1 h2) i0 i1 i2 s0 s1 s2 c0 c1 c2 ch hch
+
+/-- … and the whole stack is converted, whatever the number of slices relative to the chunk depth: every
+    voxel (x, y, z) of the output volume lies in the box of EXACTLY ONE written chunk -/
+theorem every_voxel_in_exactly_one_chunk (code : List Char) (p : List Nat) (hp : perm code = some p)
+    (hv : validCode code = true) (i0 i1 i2 : Int) (s0 s1 s2 c0 c1 c2 x y z : Nat)
+    (hc : 0 < c0 ∧ 0 < c1 ∧ 0 < c2) (hx : x < s0) (hy : y < s1) (hz : z < s2) :
+    ∃ ch ∈ stackChunks p [i0, i1, i2] [s0, s1, s2] [c0, c1, c2], inBox ch.box [x, y, z] ∧
+      ∀ ch' ∈ stackChunks p [i0, i1, i2] [s0, s1, s2] [c0, c1, c2], inBox ch'.box [x, y, z] → ch' = ch := by
+  obtain ⟨h3, h0, h1, h2⟩ := validCode_perm code p hp hv
+  exact stackChunks_cover p (perm3_mem_six p h3 h0 h1 h2) i0 i1 i2 s0 s1 s2 c0 c1 c2 x y z hc.1 hc.2.1 hc.2.2 hx hy hz
+
+/-- non-vacuity: code "PIL" is accepted, has permutation (1, 2, 0) with all three axes reversed, and the
+    loop writes 8 chunks for a 3×2×3 volume with 2×1×2 chunks -/
+example : validCode "PIL".toList = true ∧ perm "PIL".toList = some [1, 2, 0] ∧ inv "PIL".toList = some [-1, -1, -1] ∧
+    (stackChunks [1, 2, 0] [-1, -1, -1] [3, 2, 3] [2, 1, 2]).length = 8 := by decide
 
 end NgVerif.Props.C15
